@@ -341,8 +341,21 @@ def run(prop, tier_):
         for sig, desc, rep in verdicts["C03"].violations:
             if sig.get("op") == "remove_all":
                 v.violation(dict(sig, check="remove_all-follows-or-escapes"), desc.replace("C03:", "C13 (remove_all acted outside the named subtree / followed a link):"), rep)
+    # action-level conformance: every recorded openat2-backend mkdir_all run (static spellings, two-process
+    # schedules) must be a behaviour of Mkdir2.tla, with its design invariants evaluated on the driven states
+    conf = None
+    if prop == "C12":
+        todo = [(c, r) for c, r in zip(cases, results)
+                if c.get("feat", {}).get("openat2", True) is True and r.get("status") == "ok" and all(x.get("op") == "mkdir_all" for x in c.get("calls", []))
+                and c["meta"].get("kind") in ("static", "concurrent", "concurrent-tlc")]
+        conf = trace_conformance("MC_TraceMkdir2.tla", "TraceMkdir2.cfg", project_mkdir2, todo, batch=120)
+        for d in conf["drift"][:5]:
+            v.notes.append("MODEL-DRIFT Mkdir2: %s first unmatched %s (event %d of %d)" % (d["case"], d["first_unmatched"], d["at_event"], d["of"]))
+        for d in conf["invariant_violations"][:5]:
+            v.notes.append("MODEL-DRIFT Mkdir2: invariant %s fails on the model state driven by the real trace of %s" % (d["invariant"], d["case"]))
+        conf = dict(conf, drift=conf["drift"][:10], invariant_violations=conf["invariant_violations"][:10], n_drift=len(conf["drift"]), n_invariant=len(conf["invariant_violations"]))
     rc = v.finish()
-    cov = dict(states=max(gen["distinct"], 1) + stats["trace_states"], transitions=max(gen["states"], 1) + stats["events"], traces_validated_against_impl=stats["traces"],
+    cov = dict(mkdir2_action_conformance=conf, states=max(gen["distinct"], 1) + stats["trace_states"], transitions=max(gen["states"], 1) + stats["events"], traces_validated_against_impl=stats["traces"],
                samples=samples, evaluations=len(cases), distinct_nontrivial=len({json.dumps(c["meta"], sort_keys=True) for c in cases}),
                rule="static case = (path spelling generated by TLC, backend); concurrent case = (scenario of two calls, backend, schedule prefix with up to two preemptions at relevant-syscall granularity); all distinct by construction; non-trivial = all (every path has symlink/dot/missing components or a second process)",
                exhaustive=not quick, static_generated=total, static_executed=len(scases), schedule_space=space, schedules_executed=len(ccases),
